@@ -59,6 +59,7 @@ class Module:
         if not isinstance(module, Module):
             raise TypeError("All submodules must be of type Module")
         
+        self._parameters.pop(name, None)
         self._submodules[name] = module
         object.__setattr__(self, name, module)
         
@@ -68,6 +69,7 @@ class Module:
         if not isinstance(parameter, Parameter):
             raise TypeError("All parameters must be of type Parameter")
         
+        self._submodules.pop(name, None)
         self._parameters[name] = parameter
         object.__setattr__(self, name, parameter)
         
